@@ -529,12 +529,12 @@ CLAIM = dict(
           "executable Lean model of tdigest<T>: total weight = number of accepted values (for every numeric instance, NaN included), and in "
           "exact arithmetic min/max exact, centroids sorted with means in [min,max], first/last centroid = (min,1)/(max,1) after every "
           "compress, rank = 0 below min / 1 above max / in [0,1] / non-decreasing, quantile in [min,max] with q(0)=min and q(1)=max "
-          "(and non-decreasing in the rank for the reference argument order of the interpolation call = the proposed fix), "
+          "and non-decreasing in the rank (td_quantile_mono_current: for the constants and the argument order of the interpolation call "
+          "that the translator reads from the header on every run), "
           "CDF = ranks ++ [1] and PMF sums to 1; the model is executed with Float/Float32 and compared bit for bit with the real headers on "
           "generated histories; the property itself is checked on every implementation trace."),
-    note=("Quantile monotonicity is FALSE of the current code (interpolation weights swapped in get_quantile): td_quantile_mono_full_false with "
-          "witness, open known finding quantile-not-monotone, proposed one-line fix, and td_quantile_mono_fixed proves the fixed code monotone "
-          "(the translator reads the argument order from the header, the model follows the source). Not decided: centroid-count bound in k (monitored against the reserved capacity on "
+    note=("Quantile monotonicity was FALSE of the pinned code (interpolation weights swapped in get_quantile; td_quantile_mono_full_false keeps "
+          "the witness); the defect was found by this check and repaired in /repo (fix: commit a0ece21, known_findings.json: fixed). Not decided: centroid-count bound in k (monitored against the reserved capacity on "
           "traces) and the accuracy profile. Rounding/overflow not modelled."),
     technique="Lean 4 invariant proof over history trees, generic numeric class (Rat for proofs, Float/Float32 for bit-exact execution) + differential correspondence + trace oracle",
     design="DESIGN.md §3 C17")
